@@ -344,6 +344,9 @@ func (c *e2eCtx) patchRound(s *scenario, r *rand.Rand, rd int, dv *patchDirectiv
 		if len(in.Serve) > 0 {
 			c.violate("C10", "no tracking point left but a service-start call remains", rp(nil))
 		}
+		if lf, ld := proj.Leftovers(s.dir, s.newTree, s.cfg.PkgPath, "goat.yaml"); len(lf)+len(ld) > 0 {
+			c.violate("C10", fmt.Sprintf("no tracking point left but the tree holds files %v and directories %v the project never had (generated package not removed)", lf, ld), rp(nil))
+		}
 		// the project must compile: no dangling import of the removed package
 	}
 	if ok, out := proj.GoBuild(s.dir); !ok {
